@@ -387,6 +387,9 @@ func (l *plst) Before(context.Context, api.Module, api.FunctionDefinition, []uin
 func (l *plst) After(context.Context, api.Module, api.FunctionDefinition, []uint64) { l.p.calls++ }
 func (l *plst) Abort(context.Context, api.Module, api.FunctionDefinition, error)    { l.p.calls++ }
 
+// closeOnDone: the next world's runtime is configured with WithCloseOnContextDone(true) (mode plain-ctxdone).
+var closeOnDone bool
+
 func newWorld(ctx context.Context, engine string) (*world, error) {
 	return newWorldPre(ctx, engine, nil)
 }
@@ -397,6 +400,9 @@ func newWorldPre(ctx context.Context, engine string, pre *preFactory) (*world, e
 		cfg = wazero.NewRuntimeConfigCompiler()
 	}
 	w := &world{fns: map[string]api.Function{}}
+	if closeOnDone {
+		cfg = cfg.WithCloseOnContextDone(true)
+	}
 	w.rt = wazero.NewRuntimeWithConfig(ctx, cfg)
 	_, err := w.rt.NewHostModuleBuilder("host").NewFunctionBuilder().WithFunc(func(ctx context.Context, mod api.Module, x, y uint32) uint32 {
 		if len(w.script) == 0 {
@@ -444,12 +450,12 @@ func newWorldPre(ctx context.Context, engine string, pre *preFactory) (*world, e
 }
 
 // replay runs one history. mode: "plain" (no listeners), "listen" (all functions), "subset" (h0, peer, rectrap only).
-func replay(id int, b *behaviour, engine, mode string, sameObjects bool) common.Result {
-	res := common.Result{ID: id, OK: true}
+func replay(id int, b *behaviour, engine, mode string, sameObjects bool) (res common.Result) {
+	res = common.Result{ID: id, OK: true}
 	ctx := context.Background()
 	var rec *recorder
 	_ = 0
-	if mode != "plain" {
+	if mode != "plain" && mode != "plain-ctxdone" {
 		rec = &recorder{}
 		if mode == "subset" {
 			rec.only = map[string]bool{"h0": true, "peer": true, "rectrap": true, "viahost": true}
@@ -469,19 +475,43 @@ func replay(id int, b *behaviour, engine, mode string, sameObjects bool) common.
 			pre, preName = &preFactory{only: map[string]bool{"mark": true, "trap": true, "rectrap": true, "recfin": true, "recinf": true, "callpeer": true, "brret": true}}, "subset-differs-at-high-index"
 		}
 	}
+	prev := ""
+	closeOnDone = mode == "plain-ctxdone"
 	w, err := newWorldPre(ctx, engine, pre)
+	closeOnDone = false
 	if err != nil {
 		res.AddFail("infra:world", err.Error())
 		return res
 	}
 	defer w.rt.Close(ctx)
+	// Calls!Finish: Runtime.Close ends the history; every instance must be closed by it and fail its calls from then on
+	defer func() {
+		if !res.OK {
+			return
+		}
+		_ = w.rt.Close(ctx)
+		for name, m := range map[string]api.Module{"M": w.m, "A": w.a} {
+			if !m.IsClosed() {
+				res.AddFail(fmt.Sprintf("engine=%s;mode=%s;%sruntime-close#instance-still-open", engine, mode, prev),
+					fmt.Sprintf("%s: after Runtime.Close instance %s is not closed", engine, name))
+				continue
+			}
+			fn := "mark"
+			if name == "A" {
+				fn = "peer"
+			}
+			if _, err := m.ExportedFunction(fn).Call(ctx, 0); err == nil {
+				res.AddFail(fmt.Sprintf("engine=%s;mode=%s;%sruntime-close#instance-still-callable", engine, mode, prev),
+					fmt.Sprintf("%s: after Runtime.Close %s.%s(0) still succeeds", engine, name, fn))
+			}
+		}
+	}()
 	defer func() {
 		if pre != nil && pre.calls > 0 {
 			res.AddFail(fmt.Sprintf("engine=%s;compile(bin,F1);compile(bin,F2);%s#events-to-F1", engine, preName),
 				fmt.Sprintf("%s: the binary was compiled with factory F1, then again with F2 (%s): F1's listeners received %d events of the F2 instance", engine, preName, pre.calls))
 		}
 	}()
-	prev := ""
 	// after a stack overflow the counter has been bumped an implementation-defined number of times: keep the offset
 	delta := map[string]int{}
 	for k := range b.Hist {
@@ -568,7 +598,15 @@ func replay(id int, b *behaviour, engine, mode string, sameObjects bool) common.
 		}
 		done := make(chan ret, 1)
 		go func() {
-			out, err := f.Call(ctx, typedArgs(c.Top.Fn, int32(c.Top.Arg))...)
+			cctx, cancel := ctx, func() {}
+			if mode == "plain-ctxdone" { // a context of its own, cancelled once the call has returned: that must not matter
+				cctx, cancel = context.WithCancel(ctx)
+			}
+			out, err := f.Call(cctx, typedArgs(c.Top.Fn, int32(c.Top.Arg))...)
+			cancel()
+			if mode == "plain-ctxdone" {
+				time.Sleep(2 * time.Millisecond) // a watcher goroutine that outlived the call acts now
+			}
 			done <- ret{out, err}
 		}()
 		var r ret
@@ -701,6 +739,9 @@ func runOne(mode string) func(id int, raw json.RawMessage) common.Result {
 		}
 		res := common.Result{ID: id, OK: true}
 		modes := []string{"plain"}
+		if mode == "plain" && id%2 == 1 {
+			modes = append(modes, "plain-ctxdone")
+		}
 		if mode == "listen" {
 			modes = []string{"listen", "subset"}
 			if id%8 == 0 {
